@@ -512,9 +512,25 @@ func c10Run(layer string, s []byte, rd, chunk int) c10Obs {
 // goroutine and its 64 KiB buffers stay behind for ever.  An enumeration of 10^5 such cases would
 // exhaust memory, so the BAM layer is run with rd > 1 only when bam.NewReader succeeded with rd = 1
 // (the bgzf layer of the same streams is enumerated with every rd).
-func c10RunCase(layer string, s []byte, rd, chunk, i int, first *c10Obs) c10Obs {
-	if layer == "bam" && i > 0 && (first.hdrErr || first.bad != "") {
+//
+// Before the BAM decoders see a case, the same bytes are read through bgzf.Reader alone: if that
+// already yields bytes that are not a prefix of the original data (possible only if the BGZF layer lets
+// corrupted data through) the case fails there and the BAM layer is not run on it — sam.DecodeBinary and
+// newBuffer allocate whatever length the data announces (up to 2 GiB per call).
+func c10RunCase(st *c10Stream, s []byte, rd, chunk, i int, first *c10Obs) c10Obs {
+	layer := st.layer
+	if i > 0 && (layer == "bam" && first.hdrErr || first.bad != "") {
+		// also: a panic with rd = 1 is recovered here, the same panic in the read-ahead goroutine of
+		// rd > 1 would take the harness down; the case has already failed with rd = 1
 		return c10Obs{skip: true}
+	}
+	if layer == "bam" && i == 0 {
+		pre := c10RunBgzf(s, 1, 4096)
+		if pre.bad == "" && !bytes.HasPrefix(st.data, pre.data) {
+			o := c10Obs{bad: "corrupt-data-reaches-bam-decoder", what: fmt.Sprintf("bgzf.Reader returns %d bytes that are not a prefix of the original data (then %s)", len(pre.data), pre.kind)}
+			*first = o
+			return o
+		}
 	}
 	o := c10Run(layer, s, rd, chunk)
 	if i == 0 {
@@ -834,7 +850,7 @@ func c10Enumerate(c *ctx, st *c10Stream, valsAt func(pos int, role string) []int
 					// truncation at j
 					var first c10Obs
 					for i, rd := range c10Rds {
-						truncObs[rd][j] = c10RunCase(st.layer, st.raw[:j], rd, c10Chunk(j), i, &first)
+						truncObs[rd][j] = c10RunCase(st, st.raw[:j], rd, c10Chunk(j), i, &first)
 					}
 					continue
 				}
@@ -863,7 +879,7 @@ func c10Enumerate(c *ctx, st *c10Stream, valsAt func(pos int, role string) []int
 					}
 					var first c10Obs
 					for i, rd := range c10Rds {
-						pr.obs[rd] = append(pr.obs[rd], c10RunCase(st.layer, mut, rd, c10Chunk(pos+v), i, &first))
+						pr.obs[rd] = append(pr.obs[rd], c10RunCase(st, mut, rd, c10Chunk(pos+v), i, &first))
 					}
 				}
 				pr.table = len(parts)
@@ -890,7 +906,7 @@ func c10Enumerate(c *ctx, st *c10Stream, valsAt func(pos int, role string) []int
 		for _, rd := range c10Rds {
 			o := truncObs[rd][k]
 			if o.skip {
-				r.hist("skipped.bam-rd>1-after-NewReader-error")
+				r.hist("skipped.rd>1-after-NewReader-error-or-panic-with-rd=1")
 				continue
 			}
 			in := c10Input{Kind: "trunc", Layer: st.layer, Name: st.name, Stream: hexRaw, Cut: k, Rd: rd, Chunk: c10Chunk(k)}
@@ -928,7 +944,7 @@ func c10Enumerate(c *ctx, st *c10Stream, valsAt func(pos int, role string) []int
 			for i, v := range pr.vals {
 				o := pr.obs[rd][i]
 				if o.skip {
-					r.hist("skipped.bam-rd>1-after-NewReader-error")
+					r.hist("skipped.rd>1-after-NewReader-error-or-panic-with-rd=1")
 					continue
 				}
 				in := c10Input{Kind: "subst", Layer: st.layer, Name: st.name, Stream: hexRaw, Pos: pr.pos, Val: v, Role: pr.role, Rd: rd, Chunk: c10Chunk(pr.pos + v)}
